@@ -465,18 +465,24 @@ def gen_block_raw(rng):
     return raw
 
 
-def gen_ignored(rng, need, at_end=False):
+NEWLINE_STYLES = {"mixed": ["\n", "\r", "\r\n"], "cr": ["\r"], "lf": ["\n"], "crlf": ["\r\n"]}
+
+
+def gen_ignored(rng, need, at_end=False, style="mixed", comments=0.4):
+    """one ignored run. `style` = line-terminator convention of the document (old-Mac lone CR, LF, CRLF or mixed);
+    every comment is closed by a line terminator of that style (or by the end of input when at_end)."""
+    nls = NEWLINE_STYLES[style]
     items = []
     for _ in range(rng.choice([0, 0, 1, 1, 2, 4]) + (1 if need else 0)):
         k = rng.random()
-        if k < 0.6:
-            items.append(rng.choice([" ", " ", "\n", "\t", ",", "\r", "\r\n", "\ufeff", "  "]))
+        if k >= comments:
+            items.append(rng.choice([" ", " ", "\t", ",", "\ufeff", "  "] + nls + nls))
         else:
             body = "".join(rng.choice("ab \"\\#,{}1.\t\xe9\u2028\U0001F600") for _ in range(rng.choice([0, 1, 3, 8])))
-            items.append("#" + body + rng.choice(["\n", "\r", "\r\n"]))
+            items.append("#" + body + rng.choice(nls))
     run = "".join(items)
     if at_end and rng.random() < 0.3:
-        run += "#" + "".join(rng.choice("ab \"1") for _ in range(rng.choice([0, 2])))
+        run += "#" + "".join(rng.choice("ab \"1{") for _ in range(rng.choice([0, 2, 5])))
     return run
 
 
@@ -518,14 +524,25 @@ def gen_token(rng):
     return ("BlockString", '"""' + raw + '"""', None)
 
 
-def render(rng, toks):
+def render(rng, toks, style=None, comments=None, spans=None):
+    """tokens separated by random ignored runs; `spans` (a list) receives (start, end) of every lexeme"""
+    if style is None:
+        style = rng.choice(["mixed", "mixed", "cr", "cr", "lf", "crlf"])
+    if comments is None:
+        comments = rng.choice([0.4, 0.4, 0.7])
     out = []
+    pos = 0
     prev = None
     for t in toks:
-        out.append(gen_ignored(rng, needs_separator(prev, t)))
+        ign = gen_ignored(rng, needs_separator(prev, t), style=style, comments=comments)
+        out.append(ign)
+        pos += len(ign)
         out.append(t[1])
+        if spans is not None:
+            spans.append((pos, pos + len(t[1])))
+        pos += len(t[1])
         prev = t
-    out.append(gen_ignored(rng, False, at_end=True))
+    out.append(gen_ignored(rng, False, at_end=True, style=style, comments=comments))
     return "".join(out)
 
 
@@ -668,6 +685,7 @@ def run(ctx):
             lexs.append(mutate(rng, t[1]))
     oracle_single_lexemes(ctx, lexs, "generated")
     oracle_number_lookahead(ctx, rng)
+    oracle_comments(ctx, rng)
 
     # --- mutants and prefixes -----------------------------------------------------------------
     base = [a for _, a, _ in rendered[: ctx.n(40, 300)]]
@@ -812,6 +830,8 @@ def parse_text_stream(ctx, rng):
             cases.append((c.text[: rng.randrange(len(c.text))], c.entry, c.flags, None))
     hand = ['{a}', '{ a(b: "\xe9") }  ', '# \xe9\n{a}\n', '{a} # \U0001F600', '\ufeff{ a }\ufeff', 'query Q($v: Int = 1e05) { a(b: $v) }',
             '{ a(b: "\\u00e9\\n") }', '{ a(b: """\n  x\n   \n    y\n""") }', '{ a(b: \u0663) }', '{ a\u0663 }', '{ a(b: "\\u0663\u0662\u0661\u0660") }',
+            '{ a }\r# second operation\rquery Q { b }\r', '{\r  a # one\r  b\n}', 'query Q { a } # end', '{ a #\x01\n }', '# c\r{ a }',
+            'query Q { a }\r# c\rfragment F on T { b }\r#', '{ a(b: 1 # c\r c: 2) }',
             '{a}\r\n{b}\r\n?', '{\r\n a\r\n', '[1, 2.5e3, "x", $v, {k: E}]', '[[Int!]]!', 'type A { a: Int } # c', '"d" type A { a: Int }', '{ a(b: "\\']
     for t in hand:
         for fl in PP.FLAG_COMBOS:
@@ -907,6 +927,43 @@ def newline_error_stream(ctx, rng, texts):
                          {"part": PART, "kind": "parse_contract", "text": cps(t)})
 
 
+CR_COMMENT_CASES = [
+    ("{ a }\r# second operation\rquery Q { b }\r", ["CurlyOpen", "Name", "CurlyClose", "Name", "Name", "CurlyOpen", "Name", "CurlyClose"]),
+    ("{\r  a # one\r  b\n}", ["CurlyOpen", "Name", "Name", "CurlyClose"]),
+    ("#c\ra", ["Name"]), ("a#c\rb#d\rc", ["Name", "Name", "Name"]), ("#\r#\r1", ["Integer"]), ("a #x\r\n b #y\r c #z\n d", ["Name"] * 4),
+    ("# only a comment", []), ("a # trailing comment", ["Name"]), ("a #\r", ["Name"]), ("#", []), ("a#", ["Name"]), ("1#2\r3", ["Integer", "Integer"]),
+    ("\"s\"#\"\r\"t\"", ["String", "String"]), ("...#...\r...", ["Ellip", "Ellip"]), ("{#}\r}", ["CurlyOpen", "CurlyClose"]),
+]
+
+
+def oracle_comments(ctx, rng):
+    """a comment ends at the next LF *or lone CR* (or at the end of input) and swallows nothing after it;
+    a control character inside a comment is not a CommentChar: the text is rejected."""
+    for text, kinds in CR_COMMENT_CASES:
+        ctx.count()
+        r = real_lex(text)
+        got = [x[0] for x in r[1][1:-1]] if r[0] == "ok" else None
+        ctx.stat("comments:hand")
+        if got != kinds:
+            ctx.fail("comment-swallows-tokens:%s" % classes(text, 16), "tokens after a comment closed by a lone CR (or comment at end of input) are lost or the text is rejected",
+                     {"part": PART, "kind": "tokens", "text": cps(text), "expect": [[k, None] for k in kinds]})
+    ctrl = ["\x00", "\x01", "\x07", "\x08", "\x0b", "\x0c", "\x0e", "\x1b", "\x1f"]
+    cases = []
+    for c in ctrl:
+        for nl in ("\n", "\r", "\r\n", ""):
+            cases += ["#" + c + nl + "a", "a #x" + c + "y" + nl + "b", "{ #" + c + nl + "}", "#ok" + nl + "#" + c]
+    for text in cases:
+        ctx.count()
+        r = real_lex(text)
+        ctx.stat("comments:control:%s" % r[0])
+        if r[0] == "ok":
+            ctx.fail("control-char-in-comment-accepted:%s" % classes(text, 16), "a control character inside a comment is accepted (not a SourceCharacter)",
+                     {"part": PART, "kind": "reject", "text": cps(text)})
+        elif r[0] == "internal":
+            ctx.fail("internal:%s:%s" % (r[1], classes(text)), "lexer raises %s" % r[1], {"part": PART, "kind": "lex", "text": cps(text)})
+    check_texts(ctx, [t for t, _ in CR_COMMENT_CASES] + cases, "comments")
+
+
 def oracle_number_lookahead(ctx, rng):
     """the look-ahead restriction (pinned by test_useful_number_errors): a number lexeme directly followed by a
     NameStart character is rejected — it is neither a longer number nor number + name."""
@@ -970,10 +1027,14 @@ def check_locations(ctx, rng):
 
 def report_render_failure(ctx, toks, text, r):
     """O3 failed: find the smallest token subsequence that still misbehaves under SOME separator choice."""
+    _reported["o3"] = _reported.get("o3", 0) + 1
+    if _reported["o3"] > 6:
+        ctx.stat("token-sequence-failures-not-shrunk")
+        return
     cur = list(toks)
 
     def bad(ts):
-        for sep in (" ", "\n", ","):
+        for sep in (" ", "\n", ",", "#c\r", "\r"):
             text = sep.join(t[1] for t in ts)
             r = real_lex(text)
             got = [(x[0], x[3]) for x in r[1][1:-1]] if r[0] == "ok" else None
@@ -1019,7 +1080,7 @@ def replay(ctx, data):
         ctx.model_ok = ctx.driver.available()
         parse_text_cases(ctx, [(text, inp.get("entry", "document"), inp.get("flags") or FLAG0, None)], "replay")
         return not [f for f in ctx.found[before:] if f["kind"] == "property"]
-    if kind == "lookahead":
+    if kind in ("lookahead", "reject"):
         return r[0] == "syntax"
     if kind == "loc":
         loc, hl = real_loc(text, int(inp.get("pos", 0)))
